@@ -1,4 +1,5 @@
 import LexVerif.Proof.ParseNumberTotalMain
+import LexVerif.Props.C04
 /-!
 # C10 — parsers are total (float syntax layer; property theorems)
 
@@ -136,6 +137,40 @@ theorem parseFloatModel_total (feats : Features) (fmt : Format) (o : POpts) (isP
             | err k i => exact Or.inr (Or.inr (Or.inr ⟨k, i, rfl, h, rfl⟩))
             | panic t => exact h.elim
             | fault t => exact h.elim
+
+/-- `parse` / `parse_partial` without options (STANDARD format, default options): same shape -/
+theorem parseFloatDefaultModel_total (feats : Features) (isPartial : Bool) (f : Fmt) (input : List Nat)
+    (hvalid : (formatError feats Format.standard).isNone = true) :
+    parseFloatDefaultModel feats isPartial f input false = "err InvalidRadix -" ∨
+    (∃ p, parseFloatSyntax ⟨feats, Format.standard, false⟩ {} isPartial input = .ok p ∧ Parsed.count p ≤ input.length ∧
+        parseFloatDefaultModel feats isPartial f input false = renderParsed ⟨feats, Format.standard, false⟩ f isPartial p) ∨
+    (∃ k i, parseFloatSyntax ⟨feats, Format.standard, false⟩ {} isPartial input = .error (.err k i) ∧
+        i ≤ input.length ∧ parseFloatDefaultModel feats isPartial f input false = renderErr (.err k i)) := by
+  unfold parseFloatDefaultModel
+  simp only
+  split
+  · exact Or.inl rfl
+  · have h := parseFloatSyntax_total ⟨feats, Format.standard, false⟩ rfl hvalid {} isPartial true input
+    cases hp : parseFloatSyntax ⟨feats, Format.standard, false⟩ {} isPartial input true with
+    | ok p =>
+      rw [hp] at h
+      exact Or.inr (Or.inl ⟨p, rfl, h, rfl⟩)
+    | error e =>
+      rw [hp] at h
+      cases e with
+      | err k i => exact Or.inr (Or.inr ⟨k, i, rfl, h, rfl⟩)
+      | panic t => exact h.elim
+      | fault t => exact h.elim
+
+/-- **The 12 integer types** (non-format build; from C04): the model of `lexical-parse-integer`'s `algorithm!` never
+reaches `FAULT` (unchecked `step_by_unchecked`, `take_n`/`set_cursor`) and every index it reports — error position or
+consumed count — is `≤ input.length`, for `parse` and `parse_partial`, every radix, with and without the
+multi-digit (SWAR) paths. -/
+theorem parseInt_total (feats : Features) (t : IntTy) (ht : Proof.ParseInt.IsIntTy t) (r : Nat) (h2 : 2 ≤ r)
+    (hr : r ≤ 36) (hfeat : feats.powerOfTwo = true ∨ r = 10) (partial_ noMulti : Bool) (s : List Nat)
+    (hs : ∀ b ∈ s, b < 256) :
+    ∃ res, Model.ParseInt.parseInt feats t r partial_ noMulti s = .done res ∧ C04.PRes.index res ≤ s.length :=
+  C04.model_no_fault_index_le feats t ht r h2 hr hfeat partial_ noMulti s hs
 
 /-! ## the iterator invariant -/
 
